@@ -13,6 +13,7 @@ func init() {
 	verifHarnesses["h13a"] = h13a
 	verifHarnesses["h13b"] = h13b
 	verifHarnesses["h13_witness"] = h13_witness
+	verifHarnesses["h13c"] = h13c
 }
 
 // Counting readers: every call into the underlying source is counted and the
@@ -177,4 +178,55 @@ func h13b() {
 func h13_witness() {
 	h13a()
 	verifAssert(false, "reachable")
+}
+
+// zzOneByte delivers one byte per Read (counted).
+type zzOneByte struct {
+	zzCounter
+	b   []byte
+	off int
+}
+
+func (r *zzOneByte) Read(p []byte) (int, error) {
+	r.tick()
+	if r.off >= len(r.b) || len(p) == 0 {
+		if len(p) == 0 {
+			return 0, nil
+		}
+		return 0, io.EOF
+	}
+	p[0] = r.b[r.off]
+	r.off++
+	return 1, nil
+}
+
+// h13c: a declared binary / string / envelope-name length (arbitrary int32)
+// followed by 40 bytes that arrive one byte per Read: allocation must not
+// grow with the number of reads or the declared length.
+func h13c() {
+	api := verifParam("api")
+	x := uint32(verifI32())
+	msg := []byte{byte(x >> 24), byte(x >> 16), byte(x >> 8), byte(x)}
+	if api == 2 {
+		msg = append([]byte{0x80, 0x01, 0x00, 0x01}, msg...) // strict envelope, then the name length
+	}
+	for i := 0; i < 40; i++ {
+		msg = append(msg, byte('a'+i%7))
+	}
+	src := &zzOneByte{b: msg}
+	src.limit = 64 + 32*len(msg)
+	sr := NewStreamReader(src)
+	verifAllocBegin()
+	switch api {
+	case 0:
+		sr.ReadBinary()
+	case 1:
+		sr.ReadString()
+	case 2:
+		sr.ReadEnvelopeBegin()
+	}
+	verifAllocEnd(len(msg))
+	sr.Close()
+	verifAssert(true, "cost-bounded")
+	verifReached("end")
 }
